@@ -257,6 +257,7 @@ structure PassSt where
   count : Nat := 0
   calls : Nat := 0
   ghost : List Name := []   -- values still "used" by replacement nodes that were built and then discarded
+  names : List Name := []   -- `RewriteRuleSet._value_names`: names of all values of the model (fix c9666a4)
   deriving Inhabited
 
 /-- `_update_opset_imports`: `none` = `ValueError` (two versions of one domain). -/
@@ -353,26 +354,43 @@ def redirectUses (a b : Name) (d : Nat) (g : Graph) : Graph :=
         (n.caps.map (renName a b)) (n.subs.map fun s => (s.1, renGraph a b d s.2)))
     (g.outputs.map (renName a b))
 
-/-! ## Initializer registration (`_rewrite_rule.py` ≈703-722, after fix 340a24c)
+/-! ## Naming and initializer registration (after fixes 340a24c and c9666a4)
 
-One loop: a new initializer whose name is already a key of `graph.initializers` is renamed to the
-first free `name_k` (k = 1, 2, …) and then registered; nothing registered is ever replaced.
-The search is rendered over `k ≤ |initializers| + 1` (`none` only if none of these is free). -/
+`RewriteRuleSet._value_names` holds the names of all values of the model (all graphs, subgraphs and
+functions; collected by `apply_to_model`, extended by every name given here).
+`_fresh_value_name(base)` = the first `base_k` (k = 1, 2, …) not in the set, which is then added.
+A new initializer whose name is a key of `graph.initializers` or is in the set is renamed that
+way; otherwise its name is added to the set; nothing registered is ever replaced.
+The search is rendered over `k ≤ |names| + 1` (`none` only if none of these is free). -/
 
-def freshInitName (taken : List Name) (x : Name) : Option Name :=
-  if !(taken.contains x) then some x
-  else ((List.range (taken.length + 1)).map fun k => x ++ "_" ++ toString (k + 1)).find? fun y => !(taken.contains y)
+def freshIn (names : List Name) (base : Name) : Option Name :=
+  ((List.range (names.length + 1)).map fun k => base ++ "_" ++ toString (k + 1)).find? fun y => !(names.contains y)
 
-/-- Returns the graph and the initializers under their final names. -/
-def registerInits (g : Graph) : List (Name × String) → Option (Graph × List (Name × String))
-  | [] => some (g, [])
+def freshInitName (names taken : List Name) (x : Name) : Option Name :=
+  if !(taken.contains x) && !(names.contains x) then some x else freshIn names x
+
+/-- Returns the graph, the initializers under their final names, and the extended name set. -/
+def registerInits (names : List Name) (g : Graph) :
+    List (Name × String) → Option (Graph × List (Name × String) × List Name)
+  | [] => some (g, [], names)
   | (x, t) :: rest =>
-    match freshInitName g.initNames x with
+    match freshInitName names g.initNames x with
     | none => none
     | some y =>
-      match registerInits (g.setInits (g.inits ++ [(y, t)])) rest with
+      match registerInits (names ++ [y]) (g.setInits (g.inits ++ [(y, t)])) rest with
       | none => none
-      | some (g', r) => some (g', (y, t) :: r)
+      | some (g', r, names') => some (g', (y, t) :: r, names')
+
+/-- `for n in delta.new_nodes: for v in n.outputs: if not v.name: v.name = _fresh_value_name("val")`:
+`temps` are the (still unnamed, rendered `%id_j`) outputs of the new nodes in order. -/
+def nameNewValues : List Name → List Name → List Node → List NewOut → Option (List Node × List NewOut × List Name)
+  | names, [], ns, os => some (ns, os, names)
+  | names, t :: temps, ns, os =>
+    match freshIn names "val" with
+    | none => none
+    | some y =>
+      nameNewValues (names ++ [y]) temps (ns.map (renNode t y 1))
+        (os.map fun o => match o with | .fresh t' => if t' == t then .fresh y else .fresh t' | o => o)
 
 /-! ### the code before the fix (kept for the refutation `registerInits_prefix_refuted`)
 
@@ -525,18 +543,6 @@ def bodyReadsGraph : Nat → Graph → List Name
   | d + 1, g => bodyReadsNodes d g.nodes
 end
 
-/-- The new initializer values are new objects; their *names* may coincide with a name the graph
-already reads from an enclosing scope (a body has its own, initially empty, `initializers`, so the
-clash test does not see the outer `one`).  Objects do not capture: the old readers keep reading the
-outer value and `NameFixPass` later renames the newcomer.  Name-based rendering: such a newcomer
-is given a private name right away. -/
-def avoidCapture (call : Nat) (g0 : Graph) (reg : Graph × List (Name × String)) : Graph × List (Name × String) :=
-  let seen := bodyReadsGraph BIG g0 ++ g0.outputs ++ g0.defined
-  let ren (x : Name) : Name := if seen.contains x then x ++ "#" ++ toString call else x
-  let fin := reg.2.map fun (x, t) => (ren x, t)
-  let keep := reg.1.inits.take (reg.1.inits.length - reg.2.length)
-  (reg.1.setInits (keep ++ fin), fin)
-
 /-- `graph.remove(old_nodes, safe=True)` raises when a value of a removed node still has a user
 outside the removed set: a replacement node reading an *interior* matched value (a pattern
 variable may bind the output of another matched node; `_valid_to_replace` does not look at the
@@ -586,9 +592,9 @@ def tryRule (kind : Kind) (r : Rule) (st : PassSt) (lo : List (String × Nat)) (
     let nominal := nominalInits r.repl st.calls
     -- functions take no initializers (the rule is skipped below); otherwise the values are registered,
     -- renamed on a clash; the registered graph is used only once the opset updates went through
-    match (if kind == .func then some (g, nominal) else (registerInits g nominal).map (avoidCapture st.calls g)) with
+    match (if kind == .func then some (g, nominal, st.names) else registerInits st.names g nominal) with
     | none => .error (.unmodelled "no free initializer name")
-    | some (gReg, finalInits) =>
+    | some (gReg, finalInits, namesReg) =>
     let δ := instantiate r.repl m st.nextId finalInits
     let st := { st with nextId := st.nextId + δ.newNodes.length }
     if δ.newOutputs.length != r.pat.outputs.length then .error .outputArity
@@ -616,6 +622,7 @@ def tryRule (kind : Kind) (r : Rule) (st : PassSt) (lo : List (String × Nat)) (
               (δ.newNodes.flatMap (·.inputNames)).filter (fun x => !((δ.newInits.map (·.1)).contains x)) } lo1)
           else
             let g := gReg
+            let st := { st with names := namesReg }
             let res : Except Err (PassSt × List Node) :=
               if r.asFunction then
                 match asFunction g (parentOpsets (kind == .func) st.mainOpsets lo1) st.funcs m δ.newNodes with
@@ -632,6 +639,12 @@ def tryRule (kind : Kind) (r : Rule) (st : PassSt) (lo : List (String × Nat)) (
               let δ := { δ with newOutputs := newOuts }
               let matchedNodes := m.nodes.filterMap (nodeById g)
               let newNodes := tagAndMerge r.name matchedNodes newNodes
+              -- fix c9666a4: the unnamed new values get model-wide fresh `val_k` names before insertion
+              match nameNewValues st.names (newNodes.flatMap (·.outputs)) newNodes δ.newOutputs with
+              | none => .error (.unmodelled "no free value name")
+              | some (newNodes, namedOuts, names') =>
+              let st := { st with names := names' }
+              let δ := { δ with newOutputs := namedOuts }
               if δ.newOutputs.any (· == .none) then .error (.unmodelled "replacement returned None")
               else if !r.removeNodes && δ.newOutputs.any (fun o => match o with | .existing _ => true | _ => false) then
                 .error (.unmodelled "passthru with kept nodes")
@@ -879,6 +892,16 @@ def maxIdGraph : Nat → Graph → Nat
   | d + 1, g => maxIdNodes d g.nodes
 end
 
+mutual
+/-- `_collect_value_names`: inputs, initializers and node outputs of a graph and all its subgraphs -/
+def collectNamesNodes : Nat → List Node → List Name
+  | 0, _ => []
+  | d + 1, ns => ns.flatMap fun n => n.outputs ++ n.subs.flatMap fun s => collectNames d s.2
+def collectNames : Nat → Graph → List Name
+  | 0, _ => []
+  | d + 1, g => g.inputs ++ g.initNames ++ collectNamesNodes d g.nodes
+end
+
 def applyFuncs (rules : List Rule) (fuel : Nat) (orig : List (String × String × String)) :
     PassSt → List (String × String × String) → Except Err PassSt
   | st, [] => .ok st
@@ -898,7 +921,8 @@ only renames; the rendering keeps names symbolic and the tie compares modulo ren
 non-interface values, so it is the identity here. -/
 def applyToModel (rules : List Rule) (fuel : Nat) (m : Model) : Except Err (Nat × Model) :=
   let base := max (maxIdGraph BIG m.graph) ((m.funcs.map fun f => maxIdGraph BIG f.body).foldl max 0) + 1
-  let st : PassSt := { mainOpsets := m.opsets, funcs := m.funcs, nextId := base }
+  let st : PassSt := { mainOpsets := m.opsets, funcs := m.funcs, nextId := base,
+                       names := collectNames BIG m.graph ++ m.funcs.flatMap fun f => collectNames BIG f.body }
   let orig := m.funcs.map (·.ident)
   match applyRules rules fuel 64 .main st m.opsets m.graph with
   | .error e => .error e
